@@ -144,6 +144,20 @@ def check(rep, an, tier):
                     cfg = cfgname(dict(units=has_units, return_units=ru, prefix=prefix))
                     res = an.run(f"{CONV}:{fname}", kws=kw, spec=hooks(), config=cfg)
                     formula(rep, res, entry, want_deg, out_unit, table, dim_I, dim_E, fname, ru, has_units)
+        # the unit the caller declares for the input (irr_units / flux_units) is used for plain numbers AND for quantities
+        for has_units in (False, True):
+            spec_ = arr(src, S("WL"), None)
+            if has_units:
+                spec_.tags.update(kind="pintq", has_units=True)
+            kw = {src: spec_, "wavelengths": arr("wavelengths", S("WL"), None), "return_units": none(), "prefix": none(), "axis": none(),
+                  in_kw: strv(in_kw, "I" if fname == "irr2flux" else "E")}
+            res = an.run(f"{CONV}:{fname}", kws=kw, spec=hooks(), config=cfgname(dict(units=has_units, declared_unit="given")))
+            dv = {o.split("|")[0] for o in res.value.flat().deps_all()}
+            rep.check("R-FLOW", f"the declared input unit ({in_kw}) is applied", in_kw in dv, where=res.fn.loc(), construct=f"{in_kw} → result of {fname}",
+                      entry=entry, config=res.config,
+                      msg=f"for {'quantities' if has_units else 'plain numbers'} the result does not depend on `{in_kw}`: the input is labelled with a "
+                          f"fixed unit, so values given in another prefix (e.g. 'uE') come out wrong by that factor and the inverse no longer "
+                          f"undoes the forward conversion")
         # axis path
         for axis in (0, 1, -1):
             shp = {0: S("WL", "P", "Q"), 1: S("P", "WL", "Q"), -1: S("P", "Q", "WL")}[axis]
